@@ -29,8 +29,8 @@ FMQUEUE = dict(pkg="./cache/disk", test="TestVerifFindMissingStalledBackend", na
 FAILFASTPARK = dict(pkg="./cache/disk", test="TestVerifFailFastParkedWorker", name="failfastpark", diff=False)
 CANCELLED = dict(pkg="./cache/disk", test="TestVerifCancelledRequests", name="cancelled", diff=False)
 INTERLEAVED = dict(pkg="./cache/disk", test="TestVerifInterleavedReaders", name="interleaved", diff=False)
-LOOKUPRACE = dict(pkg="./cache/disk", test="TestVerifConcurrentLookups", name="lookuprace", diff=False, race="always")
-FFRACE = dict(pkg="./cache/disk", test="TestVerifFailFastManyMisses", name="ffrace", diff=False, race="always")
+LOOKUPRACE = dict(pkg="./cache/disk", test="TestVerifConcurrentLookups", name="lookuprace", diff=False, race="always", timeout=400)
+FFRACE = dict(pkg="./cache/disk", test="TestVerifFailFastManyMisses", name="ffrace", diff=False, race="always", timeout=400)
 FAILFAST = dict(pkg="./cache/disk", test="TestVerifFailFastRace", name="failfast", diff=False)
 
 CONFIG = dict(pkg="./config", test="TestVerifConfig", name="config", diff=True)
@@ -115,7 +115,7 @@ PROPS = {
     "C12": dict(
         lean="BR.Props.C12", runs=[DISK, READTHROUGH, GRPCPROXY, S3PROXY, HTTPPROXY, AZBLOB, SRVPROXYLIMIT, SRVWRITETHROUGH], trusted_base=COMMON_TB + ["transport code of the concrete back ends (net/http, grpc, minio, azure SDK) is not modelled"],
         assumptions=["the back end is trusted for content it completely delivers"],
-        level_text="Theorems on M4's proxy read-through: a hit carries exactly the back end's bytes with the announced size; every fault (error, not found, short/long stream, wrong or unknown size, oversize) yields a miss or an error, stores nothing and releases the reservation; each accepted upload is forwarded once. Harness: grpc / s3 / http / azblob clients against in-process servers (published names, round trip, sizes stated or not), every front end behind the real http client with a slow back end (write-through survives the request), oversize and size-less back-end objects on every server read path.",
+        level_text="Theorems on M4's proxy read-through: a hit carries exactly the back end's bytes with the announced size; every fault (error, not found, short/long stream, wrong or unknown size, oversize) yields a miss or an error, stores nothing and releases the reservation; each accepted upload is forwarded once. Harness: grpc / s3 / http / azblob clients against in-process servers (published names, round trip, sizes stated or not), every front end behind the real http client with a slow back end (write-through survives the request), a second upload under the same AC/RAW key reaches the back end (finding F42), oversize and size-less back-end objects on every server read path.",
         level_note=NOTE + "partial: back-end transport libraries outside the model.", technique=TECH),
     "C18": dict(
         lean="BR.Props.C18", runs=[DISK, SRVLIMIT, SRVPROXYLIMIT], trusted_base=COMMON_TB, assumptions=[],
